@@ -5,6 +5,7 @@ from .common import finish, load_known, run_b_job, run_jobs
 
 PID = 'C11'
 S = 'models.servlet_scn:ServletScn'
+E = 'models.ensemble_scn:EnsembleScn'
 
 
 def configs(tier):
@@ -12,6 +13,10 @@ def configs(tier):
         dict(stages=[2], init_fail=True, callers=1),
         dict(stages=[1, 2], init_fail=True, callers=1),
         dict(stages=[2], init_fail=False, work_fail=True, callers=1, cycles=2),
+        # ensemble / switch trees: which member fails to start is symbolic (two start attempts in a row on the same object);
+        # the real start/stop code of EnsembleServlet / SwitchServlet with their feeder/collector threads
+        (E, dict(kind='ensemble', members=2, requests=1, fail_fast=True, member_fail=False, start_fail=True, cycles=2)),
+        (E, dict(kind='switch', members=2, requests=1, member_fail=False, start_fail=True, cycles=2)),
     ]
     if tier == 'thorough':
         cs += [
@@ -19,6 +24,8 @@ def configs(tier):
             dict(stages=[2, 1], init_fail=True, callers=1),
             dict(stages=[1, 1, 1], init_fail=True, callers=1),
             dict(stages=[2], init_fail=True, callers=2, work_fail=True),
+            (E, dict(kind='ensemble', members=3, requests=1, fail_fast=False, member_fail=True, start_fail=True, cycles=2)),
+            (E, dict(kind='switch', members=3, requests=2, member_fail=True, start_fail=True, cycles=2)),
         ]
     return cs
 
@@ -26,8 +33,9 @@ def configs(tier):
 def run(tier):
     t0 = time.time()
     known = load_known(PID)
-    jobs = [(run_b_job, ({'property': PID, 'scenario': S, 'params': p, 'known': known},
-                         3300 if tier == 'thorough' else 1200)) for p in configs(tier)]
+    jobs = [(run_b_job, ({'property': PID, 'scenario': c[0] if isinstance(c, tuple) else S,
+                          'params': c[1] if isinstance(c, tuple) else c, 'known': known},
+                         3300 if tier == 'thorough' else 1200)) for c in configs(tier)]
     results = run_jobs(jobs)
     return finish(
         PID, tier, 'model_checking', results, t0,
@@ -41,5 +49,6 @@ def run(tier):
                      'stub contracts of Lock, deque, SimpleQueue, Future, Thread, dict'],
         outside=['ProcessServlet / pipe-backed queues: real process spawn and teardown, and the exit hang when the sentinel '
                  'overtakes inputs still in the unbounded onboarding buffer (needs a pipe-capacity model)',
-                 'EnsembleServlet / SwitchServlet trees (their start loops got the same repair but are not modelled here)',
+                 'ensemble / switch members that are real worker servlets (here they follow the servlet contract: a member either '
+                 'starts its threads or raises and leaves nothing running — which the ThreadServlet configurations establish)',
                  'CPU affinity'])
